@@ -73,7 +73,15 @@ pub enum Case {
     /// scripted peer against the real initiating side
     VsAlice { local: Vec<Small>, peer: Vec<Small>, script: Vec<Sym> },
     /// real initiator and real acceptor through a proxy; fault = (before frame m, on side A?, kind)
-    Faulty { a: Vec<Small>, b: Vec<Small>, fault: Option<(u8, bool, u8)> },
+    /// skew = (A is the side whose clock is behind, d): that side's clock reads `T0 + d - 10 min` whenever it processes a
+    /// frame, so it refuses the other side's entries stamped later than `T0 + d` as too far in the future
+    Faulty {
+        a: Vec<Small>,
+        b: Vec<Small>,
+        fault: Option<(u8, bool, u8)>,
+        #[serde(default)]
+        skew: Option<(bool, u8)>,
+    },
     /// two real live actors (the C11 interpreter, lifecycle mode: the documents exist in both stores): requests are
     /// declined (document held but not synced, already syncing), lost, or their sessions fail; judged here only for
     /// "a declined request changes nothing in the store"
@@ -180,11 +188,16 @@ impl Prop for C10 {
         }
         // fault enumeration for two fixed pairs of stores: every frame index x side x kind
         for (a, b) in [(local.clone(), peer.clone()), (peer.clone(), vec![])] {
-            out.push(Case::Faulty { a: a.clone(), b: b.clone(), fault: None });
+            out.push(Case::Faulty { a: a.clone(), b: b.clone(), fault: None, skew: None });
+            for behind_a in [true, false] {
+                for d in 0..4u8 {
+                    out.push(Case::Faulty { a: a.clone(), b: b.clone(), fault: None, skew: Some((behind_a, d)) });
+                }
+            }
             for m in 1..=8u8 {
                 for side in [true, false] {
                     for kind in 0..FAULT_KINDS {
-                        out.push(Case::Faulty { a: a.clone(), b: b.clone(), fault: Some((m, side, kind)) });
+                        out.push(Case::Faulty { a: a.clone(), b: b.clone(), fault: Some((m, side, kind)), skew: None });
                     }
                 }
             }
@@ -196,8 +209,13 @@ impl Prop for C10 {
         let vs_bob = (vec(small(), 0..=5), vec(small(), 0..=6), prop_oneof![3 => Just(0u8), 1 => 1u8..=3], vec(sym(), 0..=6))
             .prop_map(|(local, peer, accept, script)| Case::VsBob { local, peer, accept, script });
         let vs_alice = (vec(small(), 0..=5), vec(small(), 0..=6), vec(sym(), 0..=6)).prop_map(|(local, peer, script)| Case::VsAlice { local, peer, script });
-        let faulty = (vec(small(), 0..=8), vec(small(), 0..=8), prop::option::weighted(0.85, (1u8..=10, any::<bool>(), 0u8..FAULT_KINDS)))
-            .prop_map(|(a, b, fault)| Case::Faulty { a, b, fault });
+        let faulty = (
+            vec(small(), 0..=8),
+            vec(small(), 0..=8),
+            prop::option::weighted(0.8, (1u8..=10, any::<bool>(), 0u8..FAULT_KINDS)),
+            prop::option::weighted(0.3, (any::<bool>(), 0u8..8)),
+        )
+            .prop_map(|(a, b, fault, skew)| Case::Faulty { a, b, fault, skew });
         let live = {
             use crate::props::c11::{Case as L, Pick};
             (any::<bool>(), vec((any::<u16>(), any::<u8>()).prop_map(|(which, flavour)| Pick { which, flavour }), 1..=24), 2u8..=4, vec(any::<u16>(), 0..8))
@@ -216,7 +234,7 @@ impl Prop for C10 {
             let r = match case {
                 Case::VsBob { local, peer, accept, script } => vs_bob(ctx, local, peer, *accept, script, &mut trial),
                 Case::VsAlice { local, peer, script } => vs_alice(ctx, local, peer, script, &mut trial),
-                Case::Faulty { a, b, fault } => faulty(ctx, a, b, *fault, &mut trial),
+                Case::Faulty { a, b, fault, skew } => faulty(ctx, a, b, *fault, *skew, &mut trial),
                 Case::Live(c) => live(ctx, c, &mut trial),
             };
             verif::set_actor_exit_pause_ms(0);
@@ -825,8 +843,15 @@ async fn read_raw<RD: AsyncRead + Unpin>(r: &mut RD) -> Option<Vec<u8>> {
     Some(v)
 }
 
-fn faulty(ctx: &mut Ctx, a: &[Small], b: &[Small], fault: Option<(u8, bool, u8)>, o: &mut Outcome) -> R<()> {
+fn faulty(ctx: &mut Ctx, a: &[Small], b: &[Small], fault: Option<(u8, bool, u8)>, skew: Option<(bool, u8)>, o: &mut Outcome) -> R<()> {
     o.class("real-vs-real");
+    // per-side clocks (initiator, acceptor): the proxy switches the hooked clock to the receiving side's value before
+    // every frame it forwards (lock-step protocol: exactly one side is processing at any time)
+    const TEN_MIN: u64 = 600_000_000;
+    let clocks: Option<(u64, u64)> = skew.map(|(behind_a, d)| {
+        let behind = T0 + d as u64 - TEN_MIN;
+        if behind_a { (behind, T0 + 3) } else { (T0 + 3, behind) }
+    });
     let ns = namespace(0).id();
     let pk_a = iroh::SecretKey::from_bytes(&[0xA1u8; 32]).public();
     let pk_b = iroh::SecretKey::from_bytes(&[0xB2u8; 32]).public();
@@ -847,6 +872,9 @@ fn faulty(ctx: &mut Ctx, a: &[Small], b: &[Small], fault: Option<(u8, bool, u8)>
         let br = FaultyReader { inner: br, reset: reset_b.clone() };
         let ha2 = ha.clone();
         let hb2 = hb.clone();
+        if let Some((ca, _)) = clocks {
+            verif::set_clock(Some(ca));
+        }
         let alice = async move { run_alice(&mut aw, &mut ar, &ha2, ns, pk_b).await.map_err(|e| format!("{e:?}")) };
         let allowed: Arc<std::sync::Mutex<Option<NamespaceId>>> = Default::default();
         let allowed2 = allowed.clone();
@@ -873,6 +901,9 @@ fn faulty(ctx: &mut Ctx, a: &[Small], b: &[Small], fault: Option<(u8, bool, u8)>
                 let raw = if from_a { read_raw(&mut par).await } else { read_raw(&mut pbr).await };
                 let Some(raw) = raw else { break };
                 count += 1;
+                if let Some((ca, cb)) = clocks {
+                    verif::set_clock(Some(if from_a { cb } else { ca }));
+                }
                 if let Some((m, side_a, kind)) = fault {
                     if m == count {
                         injected_at = Some(count);
@@ -937,6 +968,7 @@ fn faulty(ctx: &mut Ctx, a: &[Small], b: &[Small], fault: Option<(u8, bool, u8)>
             count
         };
         let joined = tokio::time::timeout(WATCHDOG, async { tokio::join!(alice, bob, proxy) }).await;
+        verif::set_clock(Some(T0 + 3));
         let (ra, (rb, _bob_out_always_available, contract), frames) = match joined {
             Err(_) => return Err("WATCHDOG".to_string()),
             Ok(x) => x,
@@ -979,9 +1011,25 @@ fn faulty(ctx: &mut Ctx, a: &[Small], b: &[Small], fault: Option<(u8, bool, u8)>
             }
             let fa = act::dump(&ha, ns).await?;
             let fb = act::dump(&hb, ns).await?;
-            let want = Model::merge(start_a.iter().chain(start_b.iter())).dump();
-            if fa != want || fb != want {
-                o.fail("C10/not-merged", format!("A {} B {} merge {}", describe_all(&fa), describe_all(&fb), describe_all(&want)));
+            // each side ends with the merge of what it held and what it could accept from the other side under its own clock
+            let acceptable = |from: &[SignedEntry], now: Option<u64>| -> Vec<SignedEntry> {
+                from.iter().filter(|e| now.map_or(true, |n| e.timestamp() <= n + TEN_MIN)).cloned().collect()
+            };
+            let from_b = acceptable(&start_b, clocks.map(|c| c.0));
+            let from_a = acceptable(&start_a, clocks.map(|c| c.1));
+            let want_a = Model::merge(start_a.iter().chain(from_b.iter())).dump();
+            let want_b = Model::merge(start_b.iter().chain(from_a.iter())).dump();
+            if from_a.len() < start_a.len() || from_b.len() < start_b.len() {
+                o.class("skew/receiver-refused-entries-as-too-far-in-the-future");
+                o.nontrivial = true;
+            } else if clocks.is_some() {
+                o.class("skew/nothing-refused");
+            }
+            if fa != want_a || fb != want_b {
+                o.fail(
+                    "C10/not-merged",
+                    format!("clocks {clocks:?}: A {} B {}, expected A {} B {}", describe_all(&fa), describe_all(&fb), describe_all(&want_a), describe_all(&want_b)),
+                );
             }
             if !start_a.is_empty() || !start_b.is_empty() {
                 o.nontrivial = o.nontrivial || (start_a != start_b);
